@@ -244,7 +244,7 @@ def runI (j : Json) : Except String Json := do
             pure (Build.Op.call (if r == "fn" then .fn else .obj) fault)
           | _ => throw s!"bad op {kind}")
         let gap := bop.inGap s
-        let safeB := fun (s : Build.S) => s.entry.isNone || (s.compiled && s.entry == some s.defns && s.table == s.defns)
+        let safeB := fun (s : Build.S) => (s.entry.isNone && !s.compiled) || (s.compiled && s.entry == some s.defns && s.table == s.defns)
         let wantTrace := match a[3]? with | some (Json.bool true) => true | _ => false
         let builds := match bop with
           | .call .fn _ => s.entry.isNone
